@@ -210,7 +210,7 @@ where
                 // When the commitment is in chopped form, we require that it be evaluated
                 // in a single point.
                 debug_assert!(com_data.point_indices.len() == 1);
-                Some(point_sets[com_data.set_index][com_data.point_indices[0]])
+                Some(point_sets[com_data.set_index][0])
             } else {
                 None
             };
